@@ -65,7 +65,7 @@ func expect(it *item) (e expectation) {
 	switch mode {
 	case "nowrite":
 		return expectation{outcome: "none"}
-	case "err":
+	case "err", "errwrite":
 		return expectation{outcome: "servfail", rcode: dns.RcodeServerFailure}
 	}
 
@@ -200,6 +200,10 @@ func genName(t *kernel.Tape, i int) string {
 	case 5:
 		return label(1+t.Choose(20, "len")) + "." + label(1+t.Choose(10, "len")) + ".test."
 	case 6:
+		if t.Chance(1, 2, "bad-response") {
+			return fmt.Sprintf("badresp%d.test.", i)
+		}
+
 		return fmt.Sprintf("err%d.test.", i)
 	default:
 		return fmt.Sprintf("s%d.size.test.", 20+t.Choose(1500, "size"))
@@ -899,6 +903,9 @@ func clientDoH(s *task, n *simnet.Net, items []*item) {
 	defer h3done()
 
 	for _, it := range items {
+		if plainOnly(it) {
+			continue
+		}
 		s.pause()
 		var rt http.RoundTripper = h2
 		ver := "h2"
@@ -1040,6 +1047,16 @@ func clientDoH(s *task, n *simnet.Net, items []*item) {
 	}
 }
 
+// plainOnly reports whether it is judged on plain DNS and DoT only.
+func plainOnly(it *item) bool {
+	if it.msg == nil || len(it.msg.Question) != 1 {
+		return false
+	}
+	_, _, _, _, _, mode := answerFor(it.msg.Question[0])
+
+	return mode == "errwrite"
+}
+
 // ---- DoQ ----
 
 func clientDoQ(s *task, n *simnet.Net, items []*item) {
@@ -1069,6 +1086,9 @@ func clientDoQ(s *task, n *simnet.Net, items []*item) {
 	}
 
 	for _, it := range items {
+		if plainOnly(it) {
+			continue
+		}
 		s.pause()
 		if conn == nil && !connect() {
 			s.Probe("doq-dial-failed")
@@ -1220,6 +1240,9 @@ func clientDNSCrypt(s *task, n *simnet.Net, sv *servers, items []*item) {
 	}
 
 	for _, it := range items {
+		if plainOnly(it) {
+			continue
+		}
 		s.pause()
 		overTCP := len(it.raw) > 400 || s.Chance(1, 3)
 		splitPrefix := false
